@@ -48,7 +48,7 @@ theorem inv_job_rmJ_cons {cfg : Cfg} {s : St} {d : Disk} (h : Inv cfg s d) {j : 
     rw [hv0] at hv1; cases hv1
     rcases hn1 with h1 | ⟨_, h1⟩
     · exact Or.inl h1
-    · exact Or.inr h1
+    · exact Or.inr (fun p hp hpn g hg => (h1 p hp hpn g hg).1)
   · exact h.mm.of_same rfl rfl
   · intro _
     exact hb.of_same rfl (h.seqHi_step hj rfl rfl rfl rfl (fun hb' => nomatch hb')) (Nat.le_refl _)
